@@ -1,5 +1,414 @@
+// c07race: the runtime half of check C07, built with -race by harness/cmd/c07.
+//
+// Concurrent readers (Get, GetResults, List, Len) run against a real pcache.ProviderCache
+// while writers are in progress: explicit Refresh with a source call held open, lookups
+// that miss with a Fetch held open, automatic refresh, and refreshes that change enough
+// providers to make the cache rebuild its main map.  Every reader records what it saw;
+// the oracles are evaluated here and the raw observation sequences are handed back to
+// cmd/c07, which also writes them out as Coq cases.  The race detector watches the lot.
 package main
 
-import "fmt"
+import (
+	"context"
+	"encoding/json"
+	"flag"
+	"fmt"
+	"os"
+	"sort"
+	"sync"
+	"sync/atomic"
+	"time"
 
-func main() { x := 0; done := make(chan bool); go func() { x++; done <- true }(); x++; <-done; fmt.Println(x) }
+	logging "github.com/ipfs/go-log/v2"
+	"github.com/ipni/go-libipni/find/model"
+	"github.com/ipni/go-libipni/pcache"
+	"github.com/libp2p/go-libp2p/core/peer"
+
+	"verif/harness/pcdrv"
+	"verif/harness/vlib"
+)
+
+const timeBase = 1_700_000_000
+
+// source reports providers 1..n, each with an advertisement time that advances with every
+// call (so the freshest record a reader may see only ever moves forward), and can hold its
+// calls open.
+type source struct {
+	idx       int
+	n         atomic.Int32 // providers 1..n are reported
+	clock     atomic.Int64
+	holdAll   atomic.Int64 // nanoseconds FetchAll stays open
+	holdFetch atomic.Int64
+	callsAll  atomic.Int64
+	callsOne  atomic.Int64
+	holds     *holdLog
+	churn     atomic.Bool // advance only some providers per call (forces update-map growth)
+}
+
+type holdLog struct {
+	mu    sync.Mutex
+	spans [][2]time.Time
+}
+
+func (h *holdLog) add(a, b time.Time) {
+	h.mu.Lock()
+	h.spans = append(h.spans, [2]time.Time{a, b})
+	h.mu.Unlock()
+}
+
+func (s *source) info(pid int, t int64) *model.ProviderInfo {
+	return &model.ProviderInfo{
+		AddrInfo:              pcdrv.AddrInfo(pid, s.idx*1000+pid),
+		LastAdvertisementTime: time.Unix(timeBase+t, 0).UTC().Format(time.RFC3339),
+	}
+}
+
+func (s *source) FetchAll(ctx context.Context) ([]*model.ProviderInfo, error) {
+	s.callsAll.Add(1)
+	if d := time.Duration(s.holdAll.Load()); d > 0 {
+		a := time.Now()
+		time.Sleep(d)
+		s.holds.add(a, time.Now())
+	}
+	t := s.clock.Add(1)
+	n := int(s.n.Load())
+	out := make([]*model.ProviderInfo, 0, n)
+	for p := 1; p <= n; p++ {
+		tp := t
+		if s.churn.Load() && (int64(p)+t)%3 != 0 {
+			tp = 1 // an old time: the cache keeps what it has for this provider
+		}
+		out = append(out, s.info(p, tp))
+	}
+	return out, nil
+}
+
+func (s *source) Fetch(ctx context.Context, pid peer.ID) (*model.ProviderInfo, error) {
+	s.callsOne.Add(1)
+	if d := time.Duration(s.holdFetch.Load()); d > 0 {
+		a := time.Now()
+		time.Sleep(d)
+		s.holds.add(a, time.Now())
+	}
+	p := pcdrv.PeerIndex(pid)
+	if p >= 1 && p <= int(s.n.Load()) {
+		return s.info(p, s.clock.Load()), nil
+	}
+	return nil, nil
+}
+
+func (s *source) String() string { return fmt.Sprintf("held-%d", s.idx) }
+
+// ---------------------------------------------------------------------------
+
+type Obs struct {
+	Pid  int   `json:"p"`
+	Time int64 `json:"t"` // advertisement time of the record returned; -1: no record
+}
+
+type Reader struct {
+	Obs       []Obs   `json:"obs"` // first observations, in order
+	Reads     int     `json:"reads"`
+	Missing   int     `json:"missing"`      // an always-reported provider came back nil / was not listed
+	WentBack  int     `json:"went_back"`    // a record older than one seen before
+	Latencies []int64 `json:"-"`            // nanoseconds per Get
+	PerHold   []int   `json:"per_hold"`     // reads completed inside each hold span
+	FirstBad  string  `json:"first_bad,omitempty"`
+}
+
+type Scenario struct {
+	Name        string   `json:"name"`
+	HoldMs      int      `json:"hold_ms"`
+	Holds       int      `json:"holds"`
+	Readers     []Reader `json:"readers"`
+	Always      []int    `json:"always"` // providers reported at all times
+	P50us       int64    `json:"p50_us"`
+	P99us       int64    `json:"p99_us"`
+	MaxUs       int64    `json:"max_us"`
+	MinPerHold  int      `json:"min_reads_per_reader_per_hold"`
+	FetchAll    int64    `json:"fetchall_calls"`
+	Fetch       int64    `json:"fetch_calls"`
+	ElapsedMs   int64    `json:"elapsed_ms"`
+	Failures    []string `json:"failures,omitempty"`
+	LenObserved []int    `json:"len_observed,omitempty"`
+}
+
+func timeOf(pi *model.ProviderInfo) int64 {
+	t, err := time.Parse(time.RFC3339, pi.LastAdvertisementTime)
+	if err != nil {
+		return 0
+	}
+	return t.Unix() - timeBase
+}
+
+const keepObs = 250
+
+type cfg struct {
+	name      string
+	nprov     int
+	holdAll   time.Duration // on source 1
+	holdFetch time.Duration
+	refresher bool          // a goroutine calls Refresh in a loop
+	misser    bool          // a goroutine looks up unknown providers in a loop
+	auto      time.Duration // refresh interval (0: none)
+	churn     bool
+	dur       time.Duration
+	nreaders  int
+}
+
+func runScenario(c cfg, rng *vlib.Rand) Scenario {
+	hl := &holdLog{}
+	s0 := &source{idx: 0, holds: hl}
+	s1 := &source{idx: 1, holds: hl}
+	s0.n.Store(int32(c.nprov))
+	s1.n.Store(int32(c.nprov))
+	s0.churn.Store(c.churn)
+	opts := []pcache.Option{pcache.WithSource(s0, s1), pcache.WithTTL(time.Hour), pcache.WithRefreshInterval(c.auto)}
+	pc, err := pcache.New(opts...) // preload: one refresh, nothing held yet
+	if err != nil {
+		panic(err)
+	}
+	s1.holdAll.Store(int64(c.holdAll))
+	s1.holdFetch.Store(int64(c.holdFetch))
+
+	sc := Scenario{Name: c.name, HoldMs: int((c.holdAll + c.holdFetch) / time.Millisecond)}
+	for p := 1; p <= c.nprov; p++ {
+		sc.Always = append(sc.Always, p)
+	}
+	stop := make(chan struct{})
+	var wg sync.WaitGroup
+	start := time.Now()
+
+	if c.refresher {
+		wg.Add(1)
+		go func() {
+			defer wg.Done()
+			for {
+				select {
+				case <-stop:
+					return
+				default:
+				}
+				_ = pc.Refresh(context.Background())
+			}
+		}()
+	}
+	if c.misser {
+		wg.Add(1)
+		go func() {
+			defer wg.Done()
+			k := 0
+			for {
+				select {
+				case <-stop:
+					return
+				default:
+				}
+				// providers nobody reports: each lookup is a miss that holds the write
+				// slot while the source call is open, then caches a negative entry
+				_, _ = pc.Get(context.Background(), pcdrv.Peer(40+k%20))
+				k++
+				if k%20 == 0 {
+					_ = pc.Refresh(context.Background())
+				}
+			}
+		}()
+	}
+
+	readers := make([]Reader, c.nreaders)
+	stamps := make([][]time.Time, c.nreaders) // completion time of every read
+	for r := 0; r < c.nreaders; r++ {
+		r := r
+		seed := rng.Uint64()
+		wg.Add(1)
+		go func() {
+			defer wg.Done()
+			lr := vlib.NewRand(seed)
+			rd := &readers[r]
+			last := map[int]int64{}
+			note := func(pid int, t int64, kind string) {
+				if len(rd.Obs) < keepObs {
+					rd.Obs = append(rd.Obs, Obs{pid, t})
+				}
+				if t < 0 {
+					rd.Missing++
+					if rd.FirstBad == "" {
+						rd.FirstBad = fmt.Sprintf("%s: provider %d reported missing", kind, pid)
+					}
+					return
+				}
+				if l, ok := last[pid]; ok && t < l {
+					rd.WentBack++
+					if rd.FirstBad == "" {
+						rd.FirstBad = fmt.Sprintf("%s: provider %d went from time %d back to %d", kind, pid, l, t)
+					}
+				}
+				last[pid] = t
+			}
+			for {
+				select {
+				case <-stop:
+					return
+				default:
+				}
+				pid := 1 + lr.Intn(c.nprov)
+				switch lr.Intn(10) {
+				case 0: // List
+					a := time.Now()
+					l := pc.List()
+					rd.Latencies = append(rd.Latencies, int64(time.Since(a)))
+					seen := map[int]int64{}
+					for _, pi := range l {
+						seen[pcdrv.PeerIndex(pi.AddrInfo.ID)] = timeOf(pi)
+					}
+					for p := 1; p <= c.nprov; p++ {
+						if t, ok := seen[p]; ok {
+							note(p, t, "List")
+						} else {
+							note(p, -1, "List")
+						}
+					}
+				case 1: // GetResults
+					a := time.Now()
+					res, err := pc.GetResults(context.Background(), pcdrv.Peer(pid), []byte("ctx"), []byte{1})
+					rd.Latencies = append(rd.Latencies, int64(time.Since(a)))
+					if err != nil || len(res) == 0 || res[0].Provider == nil || res[0].Provider.ID != pcdrv.Peer(pid) {
+						note(pid, -1, "GetResults")
+					}
+				case 2: // Len
+					a := time.Now()
+					n := pc.Len()
+					rd.Latencies = append(rd.Latencies, int64(time.Since(a)))
+					if n < c.nprov && rd.FirstBad == "" {
+						rd.Missing++
+						rd.FirstBad = fmt.Sprintf("Len returned %d with %d providers reported at all times", n, c.nprov)
+					}
+				default: // Get
+					a := time.Now()
+					pi, err := pc.Get(context.Background(), pcdrv.Peer(pid))
+					rd.Latencies = append(rd.Latencies, int64(time.Since(a)))
+					if err != nil || pi == nil {
+						note(pid, -1, "Get")
+					} else {
+						note(pid, timeOf(pi), "Get")
+					}
+				}
+				rd.Reads++
+				stamps[r] = append(stamps[r], time.Now())
+			}
+		}()
+	}
+
+	time.Sleep(c.dur)
+	close(stop)
+	wg.Wait()
+	sc.ElapsedMs = time.Since(start).Milliseconds()
+	sc.FetchAll = s0.callsAll.Load() + s1.callsAll.Load()
+	sc.Fetch = s0.callsOne.Load() + s1.callsOne.Load()
+
+	// reads completed by each reader strictly inside each hold span
+	hl.mu.Lock()
+	spans := hl.spans
+	hl.mu.Unlock()
+	sc.Holds = len(spans)
+	sc.MinPerHold = -1
+	var all []int64
+	for r := range readers {
+		all = append(all, readers[r].Latencies...)
+		for _, sp := range spans {
+			if sp[1].Sub(sp[0]) < (c.holdAll+c.holdFetch)*9/10 {
+				continue
+			}
+			n := 0
+			for _, st := range stamps[r] {
+				if st.After(sp[0]) && st.Before(sp[1]) {
+					n++
+				}
+			}
+			readers[r].PerHold = append(readers[r].PerHold, n)
+			if sc.MinPerHold < 0 || n < sc.MinPerHold {
+				sc.MinPerHold = n
+			}
+		}
+		if len(readers[r].PerHold) > 12 {
+			readers[r].PerHold = readers[r].PerHold[:12]
+		}
+	}
+	sort.Slice(all, func(i, j int) bool { return all[i] < all[j] })
+	if len(all) > 0 {
+		sc.P50us = all[len(all)/2] / 1000
+		sc.P99us = all[len(all)*99/100] / 1000
+		sc.MaxUs = all[len(all)-1] / 1000
+	}
+	sc.Readers = readers
+
+	// ---- oracles
+	hold := c.holdAll + c.holdFetch
+	for r := range readers {
+		if readers[r].Missing > 0 {
+			sc.Failures = append(sc.Failures, fmt.Sprintf("never-missing: reader %d: %s (%d times)", r, readers[r].FirstBad, readers[r].Missing))
+			break
+		}
+	}
+	for r := range readers {
+		if readers[r].WentBack > 0 {
+			sc.Failures = append(sc.Failures, fmt.Sprintf("monotone: reader %d: %s (%d times)", r, readers[r].FirstBad, readers[r].WentBack))
+			break
+		}
+	}
+	if hold > 0 {
+		if sc.Holds < 2 {
+			sc.Failures = append(sc.Failures, "setup: fewer than two source calls were held open")
+		}
+		// a reader that waited for the writer would complete about one read per hold and
+		// its median latency would be of the order of the hold time
+		if sc.MinPerHold >= 0 && sc.MinPerHold < 3 {
+			sc.Failures = append(sc.Failures, fmt.Sprintf("wait-free: some reader completed only %d reads while a source call was held open for %v", sc.MinPerHold, hold))
+		}
+		if time.Duration(sc.P50us)*time.Microsecond > hold/5 {
+			sc.Failures = append(sc.Failures, fmt.Sprintf("wait-free: median read latency %dus approaches the hold time %v", sc.P50us, hold))
+		}
+	}
+	if c.auto > 0 {
+		// at most one automatic refresh per interval (+ the preload); each refresh asks 2 sources
+		max := int64(sc.ElapsedMs/c.auto.Milliseconds()+2) * 2
+		if sc.FetchAll > max {
+			sc.Failures = append(sc.Failures, fmt.Sprintf("auto-refresh: %d FetchAll calls in %dms with a refresh interval of %v (at most %d expected)", sc.FetchAll, sc.ElapsedMs, c.auto, max))
+		}
+		if sc.FetchAll < 4 {
+			sc.Failures = append(sc.Failures, "setup: the automatic refresh never ran")
+		}
+	}
+	return sc
+}
+
+func main() {
+	seed := flag.Uint64("seed", 1, "seed")
+	tier := flag.String("tier", "quick", "tier")
+	out := flag.String("out", "", "result file")
+	flag.Parse()
+	logging.SetAllLoggers(logging.LevelFatal)
+	rng := vlib.NewRand(*seed)
+	dur := 350 * time.Millisecond
+	rounds := 1
+	if *tier == "thorough" {
+		dur = 1500 * time.Millisecond
+		rounds = 4
+	}
+	var res []Scenario
+	for k := 0; k < rounds; k++ {
+		res = append(res,
+			runScenario(cfg{name: "refresh-with-source-call-held-open", nprov: 4, holdAll: 30 * time.Millisecond, refresher: true, dur: dur, nreaders: 6}, rng.Fork(fmt.Sprint("a", k))),
+			runScenario(cfg{name: "miss-fetch-held-open", nprov: 4, holdFetch: 25 * time.Millisecond, misser: true, dur: dur, nreaders: 6}, rng.Fork(fmt.Sprint("b", k))),
+			runScenario(cfg{name: "automatic-refresh", nprov: 4, holdAll: 8 * time.Millisecond, auto: 20 * time.Millisecond, dur: dur, nreaders: 6}, rng.Fork(fmt.Sprint("c", k))),
+			runScenario(cfg{name: "refreshes-rebuilding-the-main-map", nprov: 24, refresher: true, misser: true, churn: true, dur: dur, nreaders: 6}, rng.Fork(fmt.Sprint("d", k))),
+		)
+	}
+	b, err := json.Marshal(res)
+	if err != nil {
+		panic(err)
+	}
+	if err := os.WriteFile(*out, b, 0o644); err != nil {
+		panic(err)
+	}
+}
